@@ -147,6 +147,10 @@ def run(R, tier, seed, driver_ok):
             if name.startswith('RCA'):
                 n_per = max(n_per, 6)
             X, y = zoo.blobs(rng, dd, n_classes, n_per)
+            if name == 'LFDA' or (name == 'NCA' and rng.rand() < 0.5):
+                # a class with a single member, the data away from the origin (positive measurements)
+                X = np.vstack([X, X[int(rng.randint(len(X)))] + rng.randn(dd)]) + 4.0 + 3.0 * rng.rand(dd)
+                y = np.concatenate([y, [y.max() + 1]])
             cfgs = configs(name, rng, dd, n_classes, thorough)
             if not thorough and len(cfgs) > 10:
                 keep = set(rng.choice(len(cfgs), 10, replace=False).tolist())
